@@ -163,6 +163,7 @@ type hist struct {
 	sk    *kes.SecretKey
 	spent *kes.SecretKey
 	last  *lastSig
+	held  [][]byte // the slices returned by successful Sign calls, kept (not copied)
 }
 
 type lastSig struct {
@@ -241,7 +242,9 @@ func (h *hist) opData() {
 func (h *hist) opSign(period uint64, msg []byte) {
 	sig, err := kes.Sign(h.sk, period, msg)
 	if err == nil {
-		h.last = &lastSig{period, msg, sig}
+		// last: a private copy (what the caller saw at the time); held: the returned slice itself
+		h.last = &lastSig{period, msg, append([]byte(nil), sig...)}
+		h.held = append(h.held, sig)
 	}
 	if period == h.sk.Period && int(period) < 1<<h.depth {
 		h.tb.addSign(refLeafSeed(h.depth, h.seed, period), msg)
@@ -256,6 +259,15 @@ func (h *hist) opSignSpent(period uint64, msg []byte) {
 		out = renderOpt(sig, err)
 	}
 	h.add(fmt.Sprintf("(OpSignSpent %s %s)", vh.N(period), vh.Bytes(msg)), fmt.Sprintf("Sign(spent key, period=%d)", period), out)
+}
+
+// opHeld reports what the slice returned by the i-th successful Sign holds now
+func (h *hist) opHeld(i int) {
+	out := "nosig"
+	if i < len(h.held) {
+		out = vh.Hex(h.held[i])
+	}
+	h.add(fmt.Sprintf("(OpHeldSig %s)", vh.Nat(i)), fmt.Sprintf("HeldSignature(#%d, re-read later)", i), out)
 }
 
 func (h *hist) opUpdate() {
@@ -336,7 +348,12 @@ func buildHistory(r *vh.Rng, depth int, seed []byte, observed map[int]bool) *his
 			}
 			h.opSign(uint64(t+1), msg) // a later period: refused (or exceeds the maximum)
 			h.opSign(uint64(max), msg)
+			h.opSign(uint64(t), append([]byte("first:"), msg...)) // held; overwritten by the next Sign if buffers are shared
 			h.opSign(uint64(t), msg)
+			if n := len(h.held); n >= 2 {
+				h.opHeld(n - 2)
+				h.opHeld(r.Intn(n))
+			}
 			sigBits := (64 + 64*depth) * 8
 			h.opVerifyLast(0, -1, -1, -1)
 			h.opVerifyLast(1, -1, -1, -1)
@@ -376,6 +393,14 @@ func buildHistory(r *vh.Rng, depth int, seed []byte, observed map[int]bool) *his
 	}
 	h.opData()
 	h.opSignSpent(uint64(max-1), []byte{1})
+	// every signature ever returned must still be what it was
+	stepH := 1
+	if len(h.held) > 24 {
+		stepH = len(h.held)/24 + 1
+	}
+	for i := 0; i < len(h.held); i += stepH {
+		h.opHeld(i)
+	}
 	return h
 }
 
@@ -430,6 +455,39 @@ func (m *mon) monitorSeed1(depth int, seed []byte, msg []byte, exhaustiveAt map[
 	}
 	max := 1 << depth
 	m.c.Res.Count(fmt.Sprintf("%d/%x", depth, seed), depth >= 2, fmt.Sprintf("depth=%d", depth))
+	// values returned by the API are kept (the slices themselves) together with a
+	// copy taken at the time; later calls must not change them
+	type heldVal struct {
+		what   string
+		period int
+		msg    []byte
+		slice  []byte
+		snap   []byte
+		dead   bool
+	}
+	var held []heldVal
+	hold := func(what string, period int, msg, b []byte) {
+		held = append(held, heldVal{what, period, msg, b, append([]byte(nil), b...), false})
+	}
+	recheck := func(after string, rp2 replayC39, full bool) {
+		for i, hv := range held {
+			if hv.dead {
+				continue
+			}
+			if !bytes.Equal(hv.slice, hv.snap) {
+				m.bad("held-"+hv.what+"-changed-by-later-"+after,
+					fmt.Sprintf("the %s returned at period %d was changed by a later %s (first difference at byte %d)", hv.what, hv.period, after, firstDiff(hv.slice, hv.snap)), rp2)
+				// report each change once, blamed on the call after which it was first seen
+				held[i].dead = true
+				continue
+			}
+			if (full || i >= len(held)-6) && hv.what == "signature" && depth >= 1 && !verifyAtDepth(depth, rootPk, uint64(hv.period), hv.msg, hv.slice) {
+				m.bad("held-signature-stops-verifying", fmt.Sprintf("the signature returned at period %d no longer verifies after a later %s", hv.period, after), rp2)
+				return
+			}
+		}
+	}
+	hold("public-key", 0, nil, pk)
 	for t := 0; t < max; t++ {
 		note := func(s string) replayC39 { r := rp; r.Note = fmt.Sprintf("period %d: %s", t, s); return r }
 		if sk.Period != uint64(t) {
@@ -472,12 +530,24 @@ func (m *mon) monitorSeed1(depth int, seed []byte, msg []byte, exhaustiveAt map[
 				break
 			}
 		}
+		// a first signature that is kept while the key signs again
+		msg1 := append([]byte("held:"), msg...)
+		dataBefore := append([]byte(nil), sk.Data...)
+		if sig1, err := kes.Sign(sk, uint64(t), msg1); err == nil {
+			hold("signature", t, msg1, sig1)
+		}
 		sig, err := kes.Sign(sk, uint64(t), msg)
 		if err != nil {
 			m.bad("sign-own-period-error", err.Error(), note(""))
 		} else {
+			hold("signature", t, msg, sig)
 			m.checkSig(depth, tree, t, msg, sig, rootPk, exhaustiveAt[t], note)
 		}
+		if !bytes.Equal(sk.Data, dataBefore) {
+			m.bad("sign-modifies-key", fmt.Sprintf("Sign at period %d changed the key bytes", t), note(""))
+		}
+		hold("public-key", t, nil, kes.PublicKey(sk))
+		recheck("sign", note("held values re-read after Sign"), false)
 		// evolve
 		old := sk
 		oldData := sk.Data
@@ -488,6 +558,7 @@ func (m *mon) monitorSeed1(depth int, seed []byte, msg []byte, exhaustiveAt map[
 			} else if old.Data == nil || old.Period != uint64(t) {
 				m.bad("update-exhausted-changed-key", "failed Update modified the key", note(""))
 			}
+			recheck("sign", note("held values re-read at the end of the key's life"), true)
 			break
 		}
 		if err != nil {
@@ -505,6 +576,7 @@ func (m *mon) monitorSeed1(depth int, seed []byte, msg []byte, exhaustiveAt map[
 			m.bad("spent-key-not-wiped", fmt.Sprintf("the buffer of the key consumed by Update at period %d is not zeroed", t), note(""))
 		}
 		sk = nk
+		recheck("update", note("held values re-read after Update"), false)
 	}
 }
 
